@@ -295,3 +295,67 @@ fn ordering_variables_carry_their_initialiser() {
         ]
     );
 }
+
+fn ast(ty: &str, params: &[&str]) -> String {
+    let params: Vec<String> = params.iter().map(|p| p.to_string()).collect();
+    ty_ast(&syn::parse_str::<Type>(ty).unwrap(), &params, false)
+}
+
+#[test]
+fn type_ast_printer() {
+    // Type parameters versus other identifiers; lifetimes dropped; nested generics.
+    assert_eq!(ast("T", &["T"]), r#"TParam "T""#);
+    assert_eq!(ast("T", &["B"]), r#"TApp "T" []"#);
+    assert_eq!(ast("usize", &["T"]), r#"TApp "usize" []"#);
+    assert_eq!(ast("Self", &["T"]), r#"TApp "Self" []"#);
+    assert_eq!(ast("Arc<Mutex<T>>", &["T"]), r#"TApp "Arc" [TApp "Mutex" [TParam "T"]]"#);
+    assert_eq!(ast("alloc::sync::Arc<T>", &["T"]), r#"TApp "Arc" [TParam "T"]"#);
+    assert_eq!(ast("AcquireSlow<&'a Mutex<T>, T>", &["T"]), r#"TApp "AcquireSlow" [TRef false (TApp "Mutex" [TParam "T"]); TParam "T"]"#);
+    assert_eq!(ast("ManuallyDrop<RawUpgrade<'static>>", &[]), r#"TApp "ManuallyDrop" [TApp "RawUpgrade" []]"#);
+    // References and raw pointers.
+    assert_eq!(ast("&'a RawRwLock", &[]), r#"TRef false (TApp "RawRwLock" [])"#);
+    assert_eq!(ast("&'a mut T", &["T"]), r#"TRef true (TParam "T")"#);
+    assert_eq!(ast("*const T", &["T"]), r#"TPtr false (TParam "T")"#);
+    assert_eq!(ast("*mut Option<B>", &["B", "T"]), r#"TPtr true (TApp "Option" [TParam "B"])"#);
+    // Tuples, parentheses and everything else.
+    assert_eq!(ast("Mutex<()>", &[]), r#"TApp "Mutex" [TTuple []]"#);
+    assert_eq!(ast("(T, &u8)", &["T"]), r#"TTuple [TParam "T"; TRef false (TApp "u8" [])]"#);
+    assert_eq!(ast("(T)", &["T"]), r#"TParam "T""#);
+    assert_eq!(ast("fn(&T) -> u8", &["T"]), r#"TOther "fn(&T)->u8""#);
+    assert_eq!(ast("[T; 4]", &["T"]), r#"TOther "[T;4]""#);
+    assert_eq!(ast("T::Output", &["T"]), r#"TOther "T::Output""#);
+    assert_eq!(ast("Box<dyn Fn(u8) -> T>", &["T"]), r#"TApp "Box" [TOther "dynFn(u8)->T"]"#);
+}
+
+#[test]
+fn type_params_wrappers_and_guard_methods() {
+    let out = extract(
+        r#"
+        easy_wrapper! {
+            pub struct Lock<'a, T: ?Sized>(LockInner<'a, T> => MutexGuard<'a, T>);
+        }
+        pub struct G<'a, T: ?Sized> { lock: &'a Raw, value: *mut T }
+        struct Raw;
+        struct Private;
+        impl<'a, T: ?Sized> G<'a, T> {
+            pub fn downgrade(guard: Self) -> Lock<'a, T> { todo!() }
+            pub fn try_up(self) -> Result<Lock<'a, T>, Self> { todo!() }
+            pub fn same(self) -> G<'a, T> { self }
+            pub fn into_inner(self) -> T { todo!() }
+            pub fn by_ref(&self) -> Lock<'a, T> { todo!() }
+            pub fn pinned(self: Pin<&mut Self>) -> Lock<'a, T> { todo!() }
+        }
+        impl Private { fn f(self) -> Raw { Raw } }
+        "#,
+    );
+    let lock = &out.types[0];
+    assert_eq!((lock.params.clone(), lock.lifetimes.clone()), (vec!["T".to_string()], vec!["'a".to_string()]));
+    assert_eq!(lock.fields[0].ast, r#"(TApp "LockInner" [TParam "T"])"#);
+    let g = &out.types[1];
+    assert_eq!(g.fields.iter().map(|f| f.ast.as_str()).collect::<Vec<_>>(), vec![r#"(TRef false (TApp "Raw" []))"#, r#"(TPtr true (TParam "T"))"#]);
+    let text = render_markers(&out);
+    let listed = text.split("Definition guard_methods").nth(1).unwrap();
+    assert!(listed.contains(r#"("G", "downgrade", "Self", "Lock<'a,T>")"#));
+    assert!(listed.contains(r#"("G", "try_up", "Self", "Result<Lock<'a,T>,Self>")"#));
+    assert_eq!(listed.matches("(\"").count(), 2, "{}", listed);
+}
